@@ -190,22 +190,41 @@ func main() {
 		ls := addDecl("LS", "golib", ty.Sl(ty.P(ty.N(l))))                                                               // nd+6
 		li := addDecl("LI", "golib", b("int"))                                                                           // nd+7
 		la := addDecl("LA", "golib", ty.Ar(2, ty.N(vk)))                                                                 // nd+8
+		dur := addDecl("Dur", "golib", b("int64"))                                                                       // a time.Duration-like imported named basic
+		cfg := addDecl("Cfg", "golib", ty.St(f("Level", ty.P(ty.N(li))), f("Wait", ty.P(ty.N(dur))), f("N", ty.P(ty.N(19)))))
+		// instantiations of generic types (package gpkg is written literally below; an instantiation is, for
+		// values, the struct it expands to; its Go spelling is its name)
+		oi := addDecl("Opt[int]", "gpkg", ty.St(f("V", b("int")), f("Ok", b("bool"))))
+		os_ := addDecl("Opt[string]", "gpkg", ty.St(f("V", b("string")), f("Ok", b("bool"))))
+		op := addDecl("Opt[*int]", "gpkg", ty.St(f("V", ty.P(b("int"))), f("Ok", b("bool"))))
+		o1 := addDecl("Opt[p.S1]", "gpkg", ty.St(f("V", ty.N(5)), f("Ok", b("bool"))))
+		psi := addDecl("Pair[string,int]", "gpkg", ty.St(f("K", b("string")), f("V", b("int"))))
+		pis := addDecl("Pair[int8,[]string]", "gpkg", ty.St(f("K", b("int8")), f("V", ty.Sl(b("string")))))
 		for _, t := range []*ty.Ty{
 			ty.N(v), ty.P(ty.N(v)), ty.Sl(ty.N(v)), ty.Sl(ty.P(ty.N(v))), ty.Ar(2, ty.N(v)), ty.M(b("string"), ty.N(v)), ty.M(ty.N(vk), ty.P(ty.N(v))),
 			ty.N(vs), ty.P(ty.N(vs)), ty.N(vm), ty.N(vp), ty.P(ty.N(vp)), ty.N(vk), ty.M(ty.N(vk), b("int")),
 			ty.N(l), ty.P(ty.N(l)), ty.Sl(ty.N(l)), ty.N(ls), ty.N(li), ty.P(ty.N(li)), ty.Sl(ty.N(li)), ty.M(ty.N(li), ty.N(l)), ty.N(la), ty.P(ty.N(la)),
 			ty.St(f("A", ty.N(v)), f("B", ty.P(ty.N(l))), f("C", ty.N(vs)), f("D", ty.N(ls)), f("E", ty.N(5)), f("F", ty.N(17))),
 			ty.P(ty.St(f("A", ty.P(ty.N(v))), f("M", ty.N(vm)))), ty.M(b("string"), ty.Sl(ty.N(l))),
+			// struct FIELDS of type pointer-to-named-basic (local, imported, Duration-like): non-nil values take genField's pointer case
+			ty.St(f("A", ty.P(ty.N(0))), f("B", ty.P(ty.N(1))), f("C", ty.P(ty.N(2))), f("D", ty.P(ty.N(3))), f("E", ty.P(ty.N(19))),
+				f("F", ty.P(ty.N(li))), f("G", ty.P(ty.N(dur))), f("H", ty.P(ty.N(29))), f("I", ty.P(ty.N(30)))),
+			ty.N(cfg), ty.P(ty.N(cfg)), ty.Sl(ty.N(cfg)), ty.P(ty.St(f("L", ty.P(ty.N(li))), f("N", ty.P(ty.N(0))))), ty.N(dur), ty.P(ty.N(dur)),
+			// two instantiations of one generic type held BY VALUE in one struct / as slice element / map value
+			ty.St(f("Port", ty.N(oi)), f("Host", ty.N(os_)), f("L", ty.Sl(ty.N(os_))), f("M", ty.M(b("string"), ty.N(oi))), f("P", ty.N(psi)),
+				f("Q", ty.N(pis)), f("In", ty.P(ty.N(o1))), f("O", ty.N(op))),
+			ty.N(oi), ty.N(os_), ty.P(ty.N(op)), ty.Sl(ty.N(os_)), ty.Sl(ty.N(oi)), ty.M(b("string"), ty.N(oi)), ty.M(ty.N(psi), ty.N(os_)),
+			ty.N(pis), ty.Ar(2, ty.N(psi)), ty.P(ty.St(f("A", ty.N(psi)), f("B", ty.N(pis)))),
 		} {
 			c.Types = append(c.Types, t)
 		}
 	}
-	extPkgs := []struct{ name, dir string }{{"ext", "ext"}, {"ext3", "ext3/v2"}, {"golib", "go-lib"}}
+	extPkgs := []struct{ name, dir string }{{"ext", "ext"}, {"ext3", "ext3/v2"}, {"golib", "go-lib"}, {"gpkg", "gpkg"}}
 	extImports, extUses := "", ""
 	for _, e := range extPkgs {
 		extImports += fmt.Sprintf("\t\"corpus/%s\"\n", e.dir)
 	}
-	extUses = "var _ ext.XN\nvar _ ext3.V\nvar _ golib.LI\n"
+	extUses = "var _ ext.XN\nvar _ ext3.V\nvar _ golib.LI\nvar _ gpkg.Opt[int]\n"
 	// extra shapes the shared corpus does not enumerate: pointer chains, unnamed structs as pointee /
 	// field / element, struct- and array-keyed maps with composite values, named containers as
 	// components, zero-length arrays
@@ -239,8 +258,13 @@ func main() {
 	for _, e := range extPkgs {
 		var sb strings.Builder
 		fmt.Fprintf(&sb, "// Package %s holds imported declarations of the corpus.\npackage %s\n\n", e.name, e.name)
+		if e.name == "gpkg" { // generic declarations, written literally; the env holds their instantiations
+			sb.WriteString("type Opt[T any] struct {\n\tV  T\n\tOk bool\n}\n\ntype Pair[K comparable, V any] struct {\n\tK K\n\tV V\n}\n")
+			write(filepath.Join(*out, filepath.FromSlash(e.dir), "x.go"), sb.String())
+			continue
+		}
 		if e.name == "golib" {
-			sb.WriteString("import ext3 \"corpus/ext3/v2\"\n\nvar _ ext3.V\n\n")
+			sb.WriteString("import (\n\t\"corpus/ext\"\n\text3 \"corpus/ext3/v2\"\n)\n\nvar _ ext3.V\nvar _ ext.XN\n\n")
 		}
 		for _, d := range env.Decls {
 			if d.Pkg == e.name {
